@@ -531,17 +531,17 @@ every function of the anchor files that arms a read deadline (`SetReadDeadline`/
 non-zero time, or a helper forwarding a deadline parameter to them): each row is one control-flow
 path from such a call to an exit of its function.  Every path resets the deadline to zero — directly
 or through a registered defer — or closes the conn, or is the path on which the arming call itself
-failed; the single exception is the half-close grace timer (`PathRow.isGraceTimer`, keyed on function,
-receiver and deadline expression), whose effect is what `resolve` models. -/
+failed; the single exception is the half-close grace timer (`PathRow.isGraceTimer`: a `relayCore` method or
+closure arming a deadline computed from `halfCloseTimeout`), whose effect is what `resolve` models. -/
 theorem deadline_cleared_on_every_path : ∀ r ∈ Gen.deadlinePaths, r.good = true := by decide
 
-/-- the extractor did see the probes (so an empty or truncated table cannot pass): at least one
-successfully-armed-and-cleared row in each of the three files that contain them, two in the sniffer,
-and exactly one grace-timer row. -/
+/-- the extractor did see the probes (so an empty or truncated table cannot pass): a successfully armed and
+cleared row for each of the three detection probes — found by function name in whatever file of `control/` or
+`component/sniffing/` declares them — and at least one grace-timer row. -/
 theorem deadline_table_covers_probes :
-    (Gen.deadlinePaths.any fun r => r.file == "control/tcp.go" && r.cleared && !r.armFailed) = true ∧
-    (Gen.deadlinePaths.any fun r => r.file == "control/tcp_sniff_policy.go" && r.cleared) = true ∧
-    2 ≤ ((Gen.deadlinePaths.filter fun r => r.file == "component/sniffing/sniffer.go" && r.cleared).map (·.line)).eraseDups.length ∧
-    (Gen.deadlinePaths.filter fun r => r.isGraceTimer).length = 1 := by decide
+    (Gen.deadlinePaths.any fun r => r.func == "readDnsMsgFromBufio" && r.cleared && !r.armFailed) = true ∧
+    (Gen.deadlinePaths.any fun r => r.func == "prefetchForTcpSniff" && r.cleared) = true ∧
+    (Gen.deadlinePaths.any fun r => r.func == "Sniffer.readStreamOnceWithReadDeadline" && r.cleared && !r.armFailed) = true ∧
+    (Gen.deadlinePaths.any fun r => r.isGraceTimer) = true := by decide
 
 end DaeVerif.C05.Props
